@@ -19,6 +19,7 @@ import sys
 from mon import refbufr as R
 from mon import digest as DG
 from mon.gen import cases, streams
+from mon.gen.templates import scoped
 
 ID = 'C13'
 LEVEL = 'exploration'
@@ -71,6 +72,8 @@ def build_pool(ctx, scratch):
         g = cases.gen_for(v, rng, pclose=0.9)
         for _ in range(20):
             ids = g.template(max_items=5, ptail=0.3)
+            if not scoped(ids, D):
+                continue   # compiled and interpreted runs are only claimed equal for scoped templates (C08's proviso)
             try:
                 msg = R.build_message(ids, B, D, R.Policy(rng), rng.choice([1, 2]), rng.random() < 0.4, rng.choice([2, 3, 4]),
                                       dict(master_table_version=v, update_sequence_number=len(pool)))
